@@ -99,8 +99,8 @@ def _full_expected(sit, out):
 
 scn(name="full:tt", func=TT + "full", props=("C03",), hooks=_full_hooks(),
     args=lambda it: (make_tt(it, "x", False), [], {}), check=value_check(_full_expected, "full()"))
-for _d in (1, 2, 3):
-    scn(name=f"full:ttm.d{_d}", func=TT + "full", props=("C04",),
+for _d in (1, 2, 3, 4):
+    scn(name=f"full:ttm.d{_d}", func=TT + "full", props=("C04",), tier="thorough" if _d == 4 else "quick",
         args=(lambda d: (lambda it: (make_tt(it, "x", True, d), [], {})))(_d),
         check=value_check((lambda d: (lambda sit, out: closed_chain_ttm(sit, make_tt(sit, "x", True, d), d)))(_d), "full() of a TT matrix"))
 
